@@ -84,6 +84,11 @@ CHECKS = {
    text="Every combination of 5 session states (no debugger, client connected, stopped at a breakpoint on the test runner, running a long test, test finished) and 4 orders (shutdown+exit, disconnect first, disconnect after shutdown, closing the pipe without shutdown) is driven against a real server process with generated delays; the process must exit with status 0 within 10 s and release its debug port. A process that is still alive is a violation only with a deadlock witness from /proc (all threads sleeping, no CPU consumed between samples).",
    note="Thread schedules are sampled by timing (delays), not enumerated: a shutdown race with a microsecond window may stay unseen. The VICE back-end is not exercised (no emulator in the sandbox); only the built-in test-runner machine.",
    ref="§5 C20"),
+ "C14": dict(
+   technique="proptest, model-based histories (vec of operations + interpreter) against a live `mos lsp` process; differential oracle: two freshly started servers given only the final buffers; liveness and well-formedness predicates on every response",
+   text="Histories of 1-80 operations (didOpen/didChange by single typed characters, line replacements, whole-text replacements, restore, didClose; on the main file, an imported file and a new file that is not on disk) interleaved with all 13 supported request kinds at 7 kinds of positions (incl. beyond end of line/file, inside multi-byte characters) in open, closed, non-project and non-existing documents. Every request must be answered with the process alive; every returned range must lie inside the current text of the document it names; semantic tokens must decode sorted, non-overlapping, non-empty, inside their line; after the history the last published diagnostics per file and a fixed battery of requests (documentSymbol, semanticTokens, codeLens, workspace/symbol, definition, references, highlight, hover, completion, prepareRename) must equal those of two fresh servers that receive only the final buffers (two, so that an answer that differs between identical fresh servers is reported as nondeterministic rather than blamed on the history).",
+   note="Unknown methods and malformed parameters are not sent (the property speaks of supported requests). A request that is not answered within 20 s is inconclusive, never a violation. Response order inside arrays is not compared (sets).",
+   ref="§5 C14"),
  "C15": dict(
    technique="proptest over generated programs x one identifier occurrence; oracle: static binding model (documented scoping, validated against the build through the layout model) for the exact edit set, metamorphic build comparison before/after the rename, round trip (rename back)",
    text="For a generated error-free program and one generated identifier occurrence (definition or any component of a use path) a live language server is asked to rename it to a fresh name; where prepareRename offers it, the WorkspaceEdit must touch exactly the occurrences bound to that symbol (none of `super`, equally named symbols, other text), the edited program must assemble to identical bytes and diagnostics, and a second rename back to the old name must restore the original text.",
@@ -101,7 +106,7 @@ NOT_YET = {
 
 def main():
     props = [json.loads(l) for l in open(os.path.join(HERE, "properties.jsonl"))]
-    hooks_commits = ["2d83774"]
+    hooks_commits = ["2d83774", "1dd848b"]
     m = {
       "version": 1,
       "setup_cmd": "./setup",
